@@ -58,6 +58,10 @@ func (e *Enc) external(cur *cursor, v ssa.Value, callee *ssa.Function, args []Va
 	switch full {
 	case "errors.New", "fmt.Errorf":
 		set(e.newError(cur))
+		if _, ok := e.m.spec.Ghosts["$faulted"]; ok {
+			// fault latch (DESIGN.md C11): creating an error value is a fault
+			cur.st.ghost["$faulted"] = "true"
+		}
 	case "fmt.Sprintf", "fmt.Sprint", "fmt.Sprintln":
 		set(e.fresh("sprintf", "Str"))
 	case "fmt.Fprint", "fmt.Fprintf", "fmt.Fprintln", "fmt.Print", "fmt.Printf", "fmt.Println":
@@ -132,6 +136,9 @@ func (e *Enc) fprint(cur *cursor, v ssa.Value, full string, callee *ssa.Function
 				}
 			}
 		}
+	}
+	if _, ok := e.m.spec.Ghosts["$faulted"]; ok && ghost == "$out" {
+		e.oblige(cur.guard, "pre", fmt.Sprintf("%soutput-after-fault#%d", cur.fc.tag, e.ordinal(cur.fc.tag+"oaf")), fmt.Sprintf("(not %s)", e.ghostGet(cur.st, "$faulted")), []string{"C11"}, c.Pos(), "nothing is printed after a fault: the fault latch must be clear at every output primitive")
 	}
 	if _, ok := e.m.spec.Ghosts[ghost]; !ok {
 		// output not tracked in this run
